@@ -59,7 +59,13 @@ pub fn drive_de<T: PartialEq + Debug + Copy, I: DoubleEndedIterator<Item = T> + 
                 // beyond the end only when little is left (otherwise every history would end early)
                 _ => {
                     if remaining <= 48 {
-                        remaining + rng.usize_below(3)
+                        // just past the end, or so far past it that `consumed + k` does not fit a usize
+                        match rng.below(4) {
+                            0 => usize::MAX,
+                            1 => usize::MAX - front,
+                            2 => usize::MAX - front - rng.usize_below(3),
+                            _ => remaining + rng.usize_below(3),
+                        }
                     } else {
                         rng.usize_below(300).min(remaining - 1)
                     }
@@ -129,9 +135,11 @@ pub fn drive_fwd<T: PartialEq + Debug + Copy, I: Iterator<Item = T>>(
                 2 => 70,
                 _ => 255,
             };
-            let exp = if front + k < n { Some(expect[front + k]) } else { None };
+            // near the end: jumps so long that `consumed + k` does not fit a usize
+            let k = if n - front <= 40 { [usize::MAX, usize::MAX - front, usize::MAX - front + 1, usize::MAX / 2 + 1][front % 4] } else { k };
+            let exp = if k < n - front { Some(expect[front + k]) } else { None };
             chk!(rep, "nth", (what, front, k), Exp::Is(exp), it.nth(k));
-            front = if front + k < n { front + k + 1 } else { n };
+            front = if k < n - front { front + k + 1 } else { n };
             continue;
         }
         let exp = if front < n { Some(expect[front]) } else { None };
